@@ -8,7 +8,8 @@
      /repo/serializer/serializer.go        (TimeToUint64)
      serix.go JSONEncode/JSONDecode/MapEncode/MapDecode (the *_top wrappers)
    after the fix: commits 4262ca0 (D02b), 81cafca (arrays of non-byte elements), 8fc6fcd (GetByValue),
-   a85045b (map entries written in the order of their encoded keys: a [VMap] lists the entries of the Go map in
+   9d20a03 (map key that does not encode to a string: error, was an encoder panic), bb76e84 (nil *big.Int: error,
+   was an encoder panic), a85045b (map entries written in the order of their encoded keys: a [VMap] lists the entries of the Go map in
    that order - the harness prints them so -, and [jencode] emits them in list order).
    The parameter [fx : bool] selects the code as it is now ([true]) or as it was pinned ([false]: the
    unchecked type assertions / reflect calls of map_decode.go produce [Panic]).
@@ -48,7 +49,7 @@ Inductive json :=
 | JArr (l : list json) | JObj (l : list (string * json)).
 
 Inductive nk := I8 | I16 | I32 | U8 | U16 | U32.      (* encoded as JSON numbers *)
-Inductive fmode := FReq | FOptional.                  (* serix tag "optional" *)
+Inductive fmode := FReq | FOptional | FOmit.          (* serix tags "optional" / "omitempty" *)
 
 Inductive schema :=
 | SBool | SNum (k : nk) | SI64 | SU64                 (* int64/uint64: decimal strings *)
@@ -203,7 +204,8 @@ Fixpoint jlookup (k : string) (o : list (string * json)) : option json :=
   match o with [] => None | (k', j) :: r => if String.eqb k k' then Some j else jlookup k r end.
 
 Definition is_nil (v : value) : bool := match v with VNil => true | _ => false end.
-Definition is_opt (m : fmode) : bool := match m with FOptional => true | FReq => false end.
+Definition is_opt (m : fmode) : bool := match m with FOptional => true | _ => false end.
+Definition is_omit (m : fmode) : bool := match m with FOmit => true | _ => false end.
 
 (* parseStructFields: "optional" only on pointers and interfaces *)
 Definition nilable (s : schema) : bool :=
@@ -252,6 +254,58 @@ Definition seq_view (fx : bool) (j : json) : res (list json) :=
          end
   end.
 
+(* ---------- zero values: what a fresh destination holds (fields the decoder leaves untouched: a missing
+   "omitempty" key; the pinned array path) and reflect.Value.IsZero / API.isValueEmpty ---------- *)
+Definition zero_time : Z := -62135596800000000000.    (* time.Time{} = 0001-01-01 00:00:00 UTC, in unix nanoseconds *)
+
+Fixpoint zero_of (s : schema) : value :=
+  match s with
+  | SBool => VBool false
+  | SNum _ | SI64 | SU64 => VInt 0
+  | STime => VInt zero_time
+  | SString | SBytes => VStr EmptyString
+  | SByteArr n => VStr (fit n EmptyString)
+  | SU256 | SIface _ => VNil
+  | SStruct true _ _ => VNil
+  | SStruct false _ fs => VList (map (fun f => match f with (_, _, s) => zero_of s end) fs)
+  | SSlice _ => VList []
+  | SArr n e => VList (repeat (zero_of e) n)
+  | SMap _ _ => VMap []
+  end.
+
+Section FieldsZero.
+Variable z : schema -> value -> bool.
+Fixpoint fields_zero (fs : list (string * fmode * schema)) (vs : list value) : bool :=
+  match fs, vs with
+  | [], [] => true
+  | (_, _, x) :: fr, v :: vr => z x v && fields_zero fr vr
+  | _, _ => false
+  end.
+End FieldsZero.
+
+(* isValueEmpty(v) = v.IsZero() || (slice && len 0).  The model identifies nil and empty slices / maps, so a slice is
+   empty iff it has no elements; for a map (IsZero = nil, a non-nil empty map is NOT empty) and for slices nested in
+   by-value structs / arrays (IsZero = nil) the identification loses information: "omitempty" on maps, arrays and
+   by-value structs is outside [wf_schema] (see [omittable]). *)
+Fixpoint is_empty (s : schema) (v : value) {struct s} : bool :=
+  match s with
+  | SBool => match v with VBool b => negb b | _ => false end
+  | SNum _ | SI64 | SU64 => match v with VInt z => z =? 0 | _ => false end
+  | STime => match v with VInt z => z =? zero_time | _ => false end
+  | SString | SBytes => match v with VStr x => String.eqb x EmptyString | _ => false end
+  | SByteArr n => match v with VStr x => String.eqb x (fit n EmptyString) | _ => false end
+  | SU256 | SIface _ => is_nil v
+  | SStruct true _ _ => is_nil v
+  | SStruct false _ fs => match v with VList vs => fields_zero is_empty fs vs | _ => false end
+  | SSlice _ => match v with VList [] => true | _ => false end
+  | SArr _ e => match v with VList vs => forallb (is_empty e) vs | _ => false end
+  | SMap _ _ => match v with VMap [] => true | _ => false end
+  end.
+
+(* field types on which the model value determines emptiness exactly *)
+Definition omittable (s : schema) : bool :=
+  match s with SMap _ _ | SArr _ _ | SStruct false _ _ => false | _ => true end.
+
 (* ---------- higher-order traversals (the model functions recurse through them) ---------- *)
 Section EncFields.
 Variable enc : schema -> value -> res json.
@@ -260,7 +314,7 @@ Fixpoint enc_fields (fs : list (string * fmode * schema)) (vs : list value)
   match fs, vs with
   | [], [] => Ok []
   | (k, m, s) :: fr, v :: vr =>
-      if is_opt m && is_nil v then enc_fields fr vr
+      if (is_omit m && is_empty s v) || (is_opt m && is_nil v) then enc_fields fr vr   (* omitEmpty first, then optional *)
       else let* j := enc s v in let* r := enc_fields fr vr in Ok ((k, j) :: r)
   | _, _ => Err EType
   end.
@@ -285,7 +339,8 @@ Fixpoint enc_entries (kvs : list (value * value)) : res (list (string * json)) :
       let* jv := encv v in
       match jk with
       | JStr ks => let* rs := enc_entries r in Ok ((ks, jv) :: rs)
-      | _ => Panic                                     (* map_encode.go: `return k.(string), v, nil` *)
+      | _ => Err EUnsupported                          (* map_encode.go: `keyStr, ok := k.(string)` (9d20a03; was an
+                                                          unchecked assertion: panic on e.g. map[uint16]T) *)
       end
   end.
 End EncEntries.
@@ -298,7 +353,9 @@ Fixpoint dec_fields (fs : list (string * fmode * schema)) : res (list value) :=
   | [] => Ok []
   | (k, m, s) :: fr =>
       match jlookup k o with
-      | None => if is_opt m then let* r := dec_fields fr in Ok (VNil :: r) else Err EMissing
+      | None => if is_opt m then let* r := dec_fields fr in Ok (VNil :: r)
+                else if is_omit m then let* r := dec_fields fr in Ok (zero_of s :: r)   (* field left untouched *)
+                else Err EMissing
       | Some j => let* v := dec s j in let* r := dec_fields fr in Ok (v :: r)
       end
   end.
@@ -337,21 +394,6 @@ Fixpoint find_alt (alts : list (N * schema)) : res A :=
   end.
 End FindAlt.
 
-(* ---------- zero values (only the pinned array path needs them) ---------- *)
-Fixpoint zero_of (s : schema) : value :=
-  match s with
-  | SBool => VBool false
-  | SNum _ | SI64 | SU64 | STime => VInt 0
-  | SString | SBytes => VStr EmptyString
-  | SByteArr n => VStr (fit n EmptyString)
-  | SU256 | SIface _ => VNil
-  | SStruct true _ _ => VNil
-  | SStruct false _ fs => VList (map (fun f => match f with (_, _, s) => zero_of s end) fs)
-  | SSlice _ => VList []
-  | SArr n e => VList (repeat (zero_of e) n)
-  | SMap _ _ => VMap []
-  end.
-
 (* ---------- mapEncode ---------- *)
 Fixpoint jencode (s : schema) (v : value) {struct s} : res json :=
   match s with
@@ -363,7 +405,7 @@ Fixpoint jencode (s : schema) (v : value) {struct s} : res json :=
   | SBytes | SByteArr _ => match v with VStr x => Ok (JStr (encode_hex x)) | _ => Err EType end
   | SU256 => match v with
              | VInt z => Ok (JStr (encode_big (Z.to_N z)))
-             | VNil => Panic                           (* hexutil.EncodeBig(nil): nil dereference *)
+             | VNil => Err ENil                        (* ErrUint256Nil (bb76e84; was hexutil.EncodeBig(nil): panic) *)
              | _ => Err EType
              end
   | STime => match v with VInt z => Ok (JStr (fmt_uint (Z.to_N (clamp_time z)))) | _ => Err EType end
@@ -498,6 +540,7 @@ Fixpoint wf_schema (s : schema) : bool :=
   match s with
   | SStruct _ code fs =>
       fields_ok fs
+      && forallb (fun f => match f with (_, m, x) => negb (is_omit m) || omittable x end) fs
       && forallb (fun f => match f with (_, _, x) => wf_schema x end) fs
       && str_nodup (map fkey fs)
       && match code with
@@ -526,7 +569,8 @@ Variable ht : schema -> value -> bool.
 Fixpoint fields_have_type (fs : list (string * fmode * schema)) (vs : list value) : bool :=
   match fs, vs with
   | [], [] => true
-  | (_, m, x) :: fr, v :: vr => ((is_opt m && is_nil v) || ht x v) && fields_have_type fr vr
+  | (_, m, x) :: fr, v :: vr =>
+      ((is_omit m && is_empty x v) || (is_opt m && is_nil v) || ht x v) && fields_have_type fr vr
   | _, _ => false
   end.
 Variable c : N.
